@@ -177,6 +177,7 @@ struct Metric {
 
 const CAP: usize = 3;
 const POISON: u64 = 7;
+const DRAIN: u64 = 9;
 
 fn okey(o: &Observation<Oa>) -> u64 {
     match o.attr() {
@@ -213,11 +214,15 @@ impl ObservationMetric<Attrs, Oa> for Metric {
         w.no += 1;
         w.log.push(cls);
         self.calls += 1;
-        self.acc += cls + prev as u64 + (if is_merge { 1 } else { 0 }) + 3 * h.len() as u64 + h.last().copied().unwrap_or(0);
+        self.acc += cls + prev as u64 + (if is_merge { 1 } else { 0 }) + 3 * h.len() as u64 + h.last().copied().unwrap_or(0) % 97;
         a.m += h.len() as u64;
         a.o += v.len() as u64;
         v.sort_by(|x, y| okey(y).cmp(&okey(x)));
         v.truncate(CAP);
+        if v.iter().any(|o| matches!(o.attr(), Some(x) if x.0 == DRAIN)) {
+            // "drain": the class keeps its key but loses every observation
+            v.clear();
+        }
         let poisoned = v.iter().any(|o| matches!(o.attr(), Some(x) if x.0 == POISON));
         if w.fo.contains(&idx) || poisoned {
             Err(ScriptErr::Optimize.into())
@@ -392,10 +397,24 @@ fn metric_state(t: &T, notes: &Arc<AtomicUsize>) -> (u64, u64) {
     (c.get_attributes().u, c.get_attributes().m)
 }
 
+/// every class the track has a vector for, found through `get_observations` (independent of
+/// `get_feature_classes`, which is dumped as a getter of its own): the scripts use classes 0..=16
+fn all_classes(t: &T) -> Vec<u64> {
+    let mut cs: Vec<u64> = (0..=16u64).filter(|c| t.get_observations(*c).is_some()).collect();
+    for c in t.get_feature_classes() {
+        if !cs.contains(&c) {
+            cs.push(c);
+        }
+    }
+    cs.sort();
+    cs
+}
+
 fn dump_track(t: &T, notes: &Arc<AtomicUsize>) -> String {
     let a = t.get_attributes();
-    let mut classes = t.get_feature_classes();
-    classes.sort();
+    let mut fc = t.get_feature_classes();
+    fc.sort();
+    let classes = all_classes(t);
     let mut obs = vec![];
     for c in &classes {
         let v = t.get_observations(*c).unwrap();
@@ -407,7 +426,7 @@ fn dump_track(t: &T, notes: &Arc<AtomicUsize>) -> String {
     }
     let (calls, acc) = metric_state(t, notes);
     format!(
-        "{{\"id\":{},\"a\":[{},{},{}],\"obs\":{},\"ms\":[{},{}],\"h\":{}}}",
+        "{{\"id\":{},\"a\":[{},{},{}],\"obs\":{},\"ms\":[{},{}],\"h\":{},\"fc\":{}}}",
         t.get_track_id(),
         a.u,
         a.m,
@@ -415,7 +434,8 @@ fn dump_track(t: &T, notes: &Arc<AtomicUsize>) -> String {
         jlist(&obs),
         calls,
         acc,
-        jnums(t.get_merge_history())
+        jnums(t.get_merge_history()),
+        jnums(&fc)
     )
 }
 
@@ -520,7 +540,7 @@ fn direct_merge(dest: &T, src: &T, cls: &Option<Vec<u64>>, mh: bool, notes: &Arc
     let mut d = dest.clone();
     let classes = match cls {
         Some(c) if !c.is_empty() => c.clone(),
-        _ => src.get_feature_classes(),
+        _ => all_classes(src), // "all classes defined in src"
     };
     let r = d.merge(src, &classes, mh);
     let n = notes.load(Ordering::SeqCst) - saved_n;
